@@ -149,7 +149,11 @@ class Plan:
     def entry(self, ref):
         # ref like stage0.W1 ; try exact, exact-without-stage, base name
         stage, name = ref.split('.', 1)
-        for key in (ref, name, '%s.%s' % (stage, base_name(name)), base_name(name)):
+        keys = [ref, name, '%s.%s' % (stage, base_name(name)), base_name(name)]
+        if '#' in name:  # loop instance <iteration>#<name>[<replica>]
+            bare = name.split('#', 1)[1]
+            keys += [bare, base_name(bare)]
+        for key in keys:
             if key in self.plan:
                 return self.plan[key]
         return {}
@@ -439,7 +443,10 @@ def install_probes():
     o_finish = CS.finish
 
     def cs_finish(self, finalState):
-        REC.ev('finish', self.specification.reference, {'to': finalState, 'state': self.state})
+        ref = self.specification.reference
+        cur = simk.K.cur() if simk.K is not None else None
+        via_pm = getattr(cur, '_in_pm', None) == ref  # called by this component's own postMortemCheck (its verdict)
+        REC.ev('finish', ref, {'to': finalState, 'state': self.state, 'via_pm': via_pm})
         return o_finish(self, finalState)
 
     CS.finish = cs_finish
@@ -531,9 +538,15 @@ def install_probes():
         ref = component.specification.reference
         REC.ev('postMortemCheck', ref, {'exitReason': component.engine.exitReason(), 'finishCalled': component.finishCalled})
         REC.note_abstract('pm', ref, component.engine.exitReason())
+        cur = simk.K.cur() if simk.K is not None else None
+        prev = getattr(cur, '_in_pm', None)
+        if cur is not None:
+            cur._in_pm = ref
         try:
             return o_pm(self, state, component)
         finally:
+            if cur is not None:
+                cur._in_pm = prev
             REC.ev('postMortemCheck-end', ref, None)
 
     Ctl.postMortemCheck = c_pm
